@@ -142,6 +142,7 @@ def evaluate(v):
 def check(prop, tier, seed, replay=None):
     run = common.Run(prop, tier, seed)
     if replay:
+        run.is_replay = True
         rp = json.load(open(replay))["replay"]
         bad = evaluate(rp["vector"])
         run.cov.update(evaluations=1, distinct_nontrivial=2)
